@@ -1,9 +1,14 @@
 import Pep508.Driver.Names
+import Pep508.Driver.Marker
 open Pep508.Driver
 
 def step (line : String) : String :=
   match fields line with
   | "name" :: args => runName args
+  | "dump" :: args => runDump args
+  | "ev" :: args => runEv args
+  | "disj" :: args => runDisj args
+  | "xev" :: args => runXev args
   | _ => "bad-op"
 
 partial def loop (h : IO.FS.Stream) (out : IO.FS.Stream) : IO Unit := do
